@@ -677,6 +677,9 @@ impl Seq {
                     g.emit_req((leaf.site, self.acc), leaf.op, Arity::Never, outs, self.legacy);
                     frame.pc += 1;
                 }
+                Stmt::MakeAndDrop(_) => {
+                    frame.pc += 1;
+                }
                 Stmt::Burst { n, tag } => {
                     for _ in 0..n {
                         outs.push(Out::Event(EvDesc {
